@@ -35,14 +35,21 @@ RULE = (
     "and against a brute-force maximum over ALL K^T paths; forward_backward/calculate_temporary_variables/"
     "ClassicHmm.update are compared with the exact rational model and with brute-force sums over ALL K^T paths; "
     "every label sequence of length <=7 (quick) / <=9 (thorough) over 3 labels through _dwellcounts_from_statepath "
-    "in both modes, and a sample of them through HiddenMarkovModel.extract_dwell_times + seeded random: medium traces "
+    "in both modes, and a sample of them through HiddenMarkovModel.extract_dwell_times; every ordered pair of label "
+    "sequences of equal length <=3 (quick) / <=4 (thorough) as three calls a, b, a of extract_dwell_times on ONE "
+    "HiddenMarkovModel / GaussianMixtureModel object over the same time window (all mode combinations), and 150 / 3000 "
+    "seeded random sequences of 2-6 calls on one model object (next trace: same start/dt/length with other data, the same "
+    "trace again, exactly one of start/dt/length changed with the same or other data, or unrelated; state_path calls "
+    "interleaved): every call must "
+    "return the dwells of the trace it was given + seeded random: medium traces "
     "(T<=40 quick / <=64 thorough) through the exact forward-backward model, long traces (T<=5000) through "
     "Baum-Welch (manual E/M steps and the public constructor with tol in {0, 1e-3, 0.5, 5}: n_iter, converged and "
     "fit_info.log_likelihood must match the E/M sequence) for normalisation and EM monotonicity with the final "
     "model's Viterbi path scored exactly by the Lean model, long label sequences over <=5 labels (negative labels "
     "included) + malformed stream (empty trace, NaN labels, wrong initial_guess type, state-count mismatch). "
     "Non-trivial: decoded path with >=2 states; forward-backward with K>=2 and T>=2; EM with K>=2 and >=2 "
-    "iterations; label sequence with >=2 runs; malformed input that must raise."
+    "iterations; label sequence with >=2 runs; call sequence with >=2 calls and a trace with >=2 runs; malformed input "
+    "that must raise."
 )
 TRUSTED = [
     "the Gaussian log-density log N(x; mu, 1/tau) and log pi, log A are computed by the harness with math.log/math.exp "
@@ -112,6 +119,85 @@ def stub_hmm(model):
 def trace_of(data, dt=1000):
     Slice, Continuous, *_ = _lk()
     return Slice(Continuous(np.array(data, dtype=float), 0, dt))
+
+
+def seq_model(kind, K):
+    """a model OBJECT with well separated states (means 10*j, sd 0.1, uniform pi/A resp. weights): every label sequence is
+    the unique optimal decoding of the trace `seq_trace` builds from it"""
+    _, _, _, pub, det, mixture = _lk()
+    mu = np.array([10.0 * j for j in range(K)])
+    if kind == "gmm":
+        g = mixture.GaussianMixtureModel.__new__(mixture.GaussianMixtureModel)
+        g.n_states = K
+        g._model = mixture.ClassicGmm(K, mu, np.full(K, 100.0), np.full(K, 1.0 / K))
+        g._fit_info = None
+        return g
+    return stub_hmm(det.ClassicHmm(K, mu, np.full(K, 100.0), np.full(K, 1.0 / K), np.full((K, K), 1.0 / K)))
+
+
+def seq_trace(labels, start, dt):
+    Slice, Continuous, *_ = _lk()
+    return Slice(Continuous(np.array([10.0 * s for s in labels], dtype=float), int(start), int(dt)))
+
+
+def counts_of_times(times, dt):
+    """dwell times (seconds) as whole numbers of samples: canonical string, or a description of what is wrong"""
+    dt_s = dt * 1e-9
+    counts = {}
+    for s, v in times.items():
+        cs = []
+        for x in np.atleast_1d(v):
+            c = round(float(x) / dt_s)
+            if abs(float(x) - c * dt_s) > 1e-9 * max(abs(float(x)), dt_s):
+                return f"dwell time {float(x)!r} is not a multiple of the sample period"
+            cs.append(c)
+        counts[s] = cs
+    return show_counts(counts)
+
+
+_decodes = {}
+
+
+def decodes_trivially(kind, K, labels):
+    """set-up check on a FRESH model object (never the one under test): the labels are what state_path decodes"""
+    key = (kind, K, tuple(labels))
+    if key not in _decodes:
+        if len(_decodes) > 200000:
+            _decodes.clear()
+        _decodes[key] = [int(s) for s in seq_model(kind, K).state_path(seq_trace(labels, 0, 1000)).data] == list(labels)
+    return _decodes[key]
+
+
+def impl_seq(case):
+    """a SEQUENCE of public calls on ONE model object: extract_dwell_times (optionally with a state_path call on the same
+    object before/after) for traces that may or may not share the time window, the data or the Slice object itself"""
+    kind, K = case["kind"], case["K"]
+    model = seq_model(kind, K)
+    traces = {}
+    out = []
+    for st in case["steps"]:
+        labels, start, dt = [int(s) for s in st["path"]], st["start"], st["dt"]
+        try:
+            if not decodes_trivially(kind, K, labels):
+                out.append("setup-failure: a fresh model does not decode the labels")
+                continue
+            key = (start, dt, tuple(labels))
+            if key not in traces:  # the same trace again is the same Slice object again
+                traces[key] = seq_trace(labels, start, dt)
+            tr = traces[key]
+            peeks = []
+            if st.get("peek") == "before":
+                peeks.append([int(s) for s in model.state_path(tr).data])
+            times = model.extract_dwell_times(tr, exclude_ambiguous_dwells=st["exclude"])
+            if st.get("peek") == "after":
+                peeks.append([int(s) for s in model.state_path(tr).data])
+            if any(p != labels for p in peeks):
+                out.append(f"state_path of this model object decodes {peeks[0]}, a fresh model with the same parameters {labels}")
+                continue
+            out.append(counts_of_times(times, dt))
+        except Exception as e:
+            out.append(errname(e))
+    return out
 
 
 # ------------------------------------------------------------------ independent formulas (property text)
@@ -314,6 +400,8 @@ def impl(case):
 
 
 def n_ops(case):
+    if case["op"] == "dwell_seq":
+        return len(case["steps"])
     return 2 if case["op"] == "dwell" else 1
 
 
@@ -374,17 +462,9 @@ def _impl(case):
         if [int(s) for s in h.state_path(tr).data] != list(labels):
             return ["setup-failure: decoded path differs from the labels"]
         times = h.extract_dwell_times(tr, exclude_ambiguous_dwells=case["exclude"])
-        dt_s = case["dt"] * 1e-9
-        counts = {}
-        for s, v in times.items():
-            cs = []
-            for x in np.atleast_1d(v):
-                c = round(float(x) / dt_s)
-                if abs(float(x) - c * dt_s) > 1e-9 * max(abs(float(x)), dt_s):
-                    return [f"dwell time {float(x)!r} is not a multiple of the sample period"]
-                cs.append(c)
-            counts[s] = cs
-        return [show_counts(counts)]
+        return [counts_of_times(times, case["dt"])]
+    if k == "dwell_seq":
+        return impl_seq(case)
     if k == "init":
         K = case["n_states"]
         g = case["guess"]
@@ -449,6 +529,8 @@ def ops(case):
         return [f"c16.dwell {p} {enc_bool(case['exclude'])}", f"c16.dwellc {p} {enc_bool(case['exclude'])}"]
     if k == "dwell_api":
         return [f"c16.dwellc {enc_list(case['path'])} {enc_bool(case['exclude'])}"]
+    if k == "dwell_seq":
+        return [f"c16.dwellc {enc_list(st['path'])} {enc_bool(st['exclude'])}" for st in case["steps"]]
     if k == "init":
         g = case["guess"]
         return [f"c16.init {case['n_states']} {g}" + (f" {case['guess_n']}" if g in ("gmm", "hmm") else "")]
@@ -687,6 +769,39 @@ def oracle_dwell(path, exclude, ranges, counts):
     return None
 
 
+def expected_counts(labels, exclude):
+    """per state the lengths of the maximal constant runs of the path in time order; without the first and the last run
+    of the trace when ambiguous dwells are excluded (property text)"""
+    want = runs_of(labels)
+    want = want[1:-1] if exclude else want
+    exp = {s: [] for s in set(labels)}
+    for s, x, y in want:
+        exp[s].append(y - x)
+    return exp
+
+
+def oracle_seq(case, ia):
+    """every call of the sequence has to return the dwells of the state path of the trace IT was given, whatever the same
+    model object was asked before"""
+    steps = case["steps"]
+    n = len(steps)
+    for i, (st, a) in enumerate(zip(steps, ia)):
+        what = (f"call {i + 1} of {n} on one {case['kind']} model object, extract_dwell_times(trace, "
+                f"exclude_ambiguous_dwells={st['exclude']}) with trace start={st['start']} dt={st['dt']} n={len(st['path'])}")
+        if is_err(a) or not a.startswith("["):
+            return f"dwell-times: {what}: {a[:160]}"
+        exp = expected_counts(st["path"], st["exclude"])
+        got = parse_dwells(a, pair=False)
+        if got != exp:
+            stale = [j + 1 for j in range(i) for e in (False, True) if expected_counts(steps[j]["path"], e) == got]
+            hint = f" (these are the dwells of the trace of call {stale[-1]})" if stale else ""
+            return (f"dwell-times: {what} gives counts {got}{hint}; the runs of the state path {st['path'][:60]} of this "
+                    f"trace give {exp}")
+        if not st["exclude"] and sum(sum(v) for v in got.values()) != len(st["path"]):
+            return f"dwell-tiling: {what}: the dwells cover {sum(sum(v) for v in got.values())} samples"
+    return None
+
+
 def oracle(case, ia):
     k = case["op"]
     a = ia[0]
@@ -726,6 +841,8 @@ def oracle(case, ia):
         if got != exp:
             return f"dwell-times: extract_dwell_times gives counts {got}, the runs of the path give {exp}"
         return None
+    if k == "dwell_seq":
+        return oracle_seq(case, ia)
     if k == "init":
         g = case["guess"]
         exp = "TypeError" if g == "other" else ("ValueError" if g in ("gmm", "hmm") and case["guess_n"] != case["n_states"] else "ok")
@@ -745,6 +862,8 @@ def nontrivial(case, ia):
         return case["K"] >= 2 and len(case["data"]) >= 2
     if k in ("dwell", "dwell_api"):
         return any(s is None for s in case["path"]) or len(runs_of(case["path"])) >= 2
+    if k == "dwell_seq":
+        return len(case["steps"]) >= 2 and any(len(runs_of(st["path"])) >= 2 for st in case["steps"])
     if k == "init":
         return a != "ok"
     return False
@@ -774,6 +893,17 @@ def shrink(case):
             c = dict(case)
             c["path"] = p[:i] + p[i + 1:]
             yield c
+    elif k == "dwell_seq":
+        st = case["steps"]
+        for i in range(len(st)):  # one call less
+            if len(st) > 1:
+                yield dict(case, steps=st[:i] + st[i + 1:])
+        for i in range(max(len(x["path"]) for x in st)):  # one sample less in every trace that has it (equal lengths stay equal)
+            if i > 0 or all(len(x["path"]) >= 2 for x in st):  # no trace becomes empty
+                yield dict(case, steps=[dict(x, path=x["path"][:i] + x["path"][i + 1:]) for x in st])
+        for i in range(len(st)):
+            if st[i].get("peek", "none") != "none":
+                yield dict(case, steps=st[:i] + [dict(st[i], peek="none")] + st[i + 1:])
 
 
 # ------------------------------------------------------------------ generators
@@ -841,6 +971,53 @@ def label_seq(rng, n, labels):
     return out
 
 
+def seq_case(kind, K, steps, **kw):
+    return dict({"op": "dwell_seq", "kind": kind, "K": K, "steps": steps}, **kw)
+
+
+def step(path, exclude, start=0, dt=1000, peek="none"):
+    return {"path": list(path), "exclude": bool(exclude), "start": int(start), "dt": int(dt), "peek": peek}
+
+
+def rnd_sequence(rng, K):
+    """2-6 calls on one model object.  Boundary-biased towards what a remembered result could be keyed on: the next trace
+    shares the whole time window (start, dt, length) with the previous one but carries other data (another channel of the
+    same recording), is the very same trace again (other or same mode), or differs in exactly one of start / dt / length"""
+    labels = list(range(K))
+    n = rng.choice([1, 2, 3, 5, 8, rng.randint(2, 40), rng.randint(40, 120)])
+    start = rng.choice([0, 1000, 20 * 10**9, rng.randint(0, 10**12)])
+    dt = rng.choice([1000, 12800, 10**6, rng.randint(1, 10**7)])
+    steps = []
+    for i in range(rng.choice([2, 2, 3, 4, 6])):
+        mode = rng.choice(["same-window", "same-window", "same-window", "again", "one-off", "new"]) if steps else "new"
+        if mode == "again":
+            prev = rng.choice(steps)
+            path, st, d = prev["path"], prev["start"], prev["dt"]
+        else:
+            if mode == "one-off":
+                which = rng.choice(["start", "dt", "n"])
+                if which == "start":
+                    start = start + rng.choice([1, dt, rng.randint(1, 10**9)])
+                elif which == "dt":
+                    dt = dt + rng.choice([1, rng.randint(1, 10**6)])
+                else:
+                    n = max(1, n + rng.choice([-1, 1, rng.randint(1, 20)]))
+            elif mode == "new":
+                n = rng.choice([1, 2, 3, 5, 8, rng.randint(2, 40), rng.randint(40, 120)])
+                start = rng.choice([0, 1000, 20 * 10**9, rng.randint(0, 10**12)])
+                dt = rng.choice([1000, 12800, 10**6, rng.randint(1, 10**7)])
+            if steps and mode == "one-off" and rng.chance(0.5) and len(steps[-1]["path"]) == n:
+                path = steps[-1]["path"]  # the same data over another time window
+            elif steps and mode == "same-window" and rng.chance(0.3) and len(steps[-1]["path"]) == n:
+                # the previous trace with a few samples relabelled (a filtered / corrected copy of the same channel)
+                path = [rng.choice(labels) if rng.chance(0.2) else s for s in steps[-1]["path"]]
+            else:
+                path = label_seq(rng, n, labels)
+            st, d = start, dt
+        steps.append(step(path, rng.chance(0.5), st, d, rng.choice(["none", "none", "before", "after"])))
+    return steps
+
+
 CORPUS = [
     # pi = (1,0) and the transition 0->1 impossible: the decoder has to stay in state 0 against the emissions
     {"op": "vit", "K": 2, "mu": [0.0, 10.0], "tau": [1.0, 1.0], "pi": [1.0, 0.0], "A": [[1.0, 0.0], [0.5, 0.5]], "data": [9.0, 10.0, 11.0]},
@@ -869,6 +1046,14 @@ CORPUS = [
     {"op": "dwell", "path": [-1, 5, -1], "exclude": True},
     {"op": "dwell_api", "K": 3, "path": [0, 0, 1, 1, 1, 0, 2], "exclude": True, "dt": 1000},
     {"op": "dwell_api", "K": 2, "path": [1, 1, 1], "exclude": True, "dt": 12800},
+    # one fitted model applied to two channels of one recording (same start, dt and length, other data), both modes each
+    seq_case("hmm", 2, [step([0, 0, 1, 1, 1, 0], e, 20 * 10**9, 12800) for e in (False, True)]
+             + [step([1, 0, 0, 0, 1, 1], e, 20 * 10**9, 12800) for e in (False, True)] + [step([0, 0, 1, 1, 1, 0], True, 20 * 10**9, 12800)]),
+    seq_case("gmm", 3, [step([2, 2, 0, 1, 1, 0, 0], True), step([0, 1, 1, 1, 2, 2, 0], True), step([0, 1, 1, 1, 2, 2, 0], False),
+                        step([2, 2, 0, 1, 1, 0, 0], False)]),
+    # same data, other time window; same window, other length
+    seq_case("hmm", 2, [step([0, 1, 1, 0], False, 0, 1000), step([0, 1, 1, 0], True, 4000, 1000), step([0, 1, 1, 0, 0], True, 0, 1000),
+                        step([1, 1, 0, 1], False, 0, 1250, "before")]),
 ]
 
 
@@ -929,6 +1114,24 @@ def cases(tier, rng):
         for p in itertools.product((0, 1, 2), repeat=n):
             yield {"stream": "small-scope", "op": "dwell_api", "K": 3, "path": list(p), "exclude": (sum(p) + n) % 2 == 0, "dt": 1000}
 
+    # ... and every ordered pair (a, b) of label sequences of equal length <= 3 (quick) / 4 over 3 labels as the calls a, b, a
+    #     on ONE model object, all three traces over the same time window, every combination of modes for the first two calls
+    for n in range(1, (3 if quick else 4) + 1):
+        seqs = list(itertools.product((0, 1, 2), repeat=n))
+        for ia_, a in enumerate(seqs):
+            for ib_, b in enumerate(seqs):
+                for e in range(4):
+                    kind = "gmm" if (ia_ + ib_ + e) % 8 == 0 else "hmm"  # scipy.stats makes GaussianMixtureModel.state_path ~20x slower
+                    yield dict(seq_case(kind, 3, [step(a, e & 1), step(b, e & 2), step(a, not e & 1)]), stream="small-scope")
+
+    # ---- seeded random: sequences of calls on one model object
+    N = 150 if quick else 3000
+    r = rng.fork("c16-sequences")
+    for i in range(N):
+        sub = r.fork(i)
+        K = sub.choice([2, 2, 3, 5])
+        yield dict(seq_case(sub.choice(["hmm", "hmm", "hmm", "gmm"]), K, rnd_sequence(sub, K)), stream="random", subseed=i)
+
     # ---- seeded random: medium traces through the exact forward-backward model
     N = 40 if quick else 300
     Tm = 40 if quick else 64
@@ -980,9 +1183,17 @@ def cases(tier, rng):
 def extra_coverage(results):
     kinds, errs, Ks, Ts = {}, {}, {}, {"1": 0, "2-7": 0, "8-64": 0, "65-5000": 0}
     zero_models = ties = degenerate = em_dropped = brute = 0
+    seq_calls = seq_same_window_other_data = seq_same_trace_again = 0
     for r in results:
         c = r["case"]
         k = c["op"]
+        if k == "dwell_seq":
+            st = c["steps"]
+            seq_calls += len(st)
+            for i in range(1, len(st)):
+                win = lambda x: (x["start"], x["dt"], len(x["path"]))
+                seq_same_window_other_data += any(win(p) == win(st[i]) and p["path"] != st[i]["path"] for p in st[:i])
+                seq_same_trace_again += any(win(p) == win(st[i]) and p["path"] == st[i]["path"] for p in st[:i])
         kinds[k] = kinds.get(k, 0) + 1
         a = r["impl"][0]
         if is_err(a):
@@ -1006,7 +1217,10 @@ def extra_coverage(results):
         "case_kinds": kinds, "error_kinds": errs, "states_K": Ks, "trace_lengths_T": Ts,
         "models_with_zero_probabilities": zero_models, "cases_checked_against_all_paths_brute_force": brute,
         "decoded_path_differs_from_model_path_but_scores_agree": ties, "forward_backward_degenerate": degenerate,
-        "em_runs_dropped_as_degenerate": em_dropped, "exhaustive": False,
+        "em_runs_dropped_as_degenerate": em_dropped,
+        "calls_in_sequences_on_one_model_object": seq_calls,
+        "sequence_calls_with_the_time_window_of_an_earlier_call_but_other_data": seq_same_window_other_data,
+        "sequence_calls_repeating_an_earlier_trace": seq_same_trace_again, "exhaustive": False,
         "exhaustive_note": "the small-scope stream enumerates all label sequences and, per model, all trace lengths; "
                            "the oracle enumerates all K^T paths there; model parameters themselves are sampled",
     }
